@@ -163,6 +163,13 @@ async fn vl_hold(rq: RequestContext<LifeCtx>, q: Query<HoldQuery>) -> Result<Htt
     Ok(HttpResponseOk(HoldOut { id: q.id, waited_ms: waited }))
 }
 
+/// a typed JSON body (for requests whose Content-Type header value is not text)
+#[endpoint { method = PUT, path = "/typed" }]
+async fn vl_typed(rq: RequestContext<LifeCtx>, b: dropshot::TypedBody<serde_json::Value>) -> Result<HttpResponseOk<serde_json::Value>, HttpError> {
+    let _ = rq;
+    Ok(HttpResponseOk(b.into_inner()))
+}
+
 #[endpoint { method = POST, path = "/upload" }]
 async fn vl_upload(rq: RequestContext<LifeCtx>, q: Query<HoldQuery>, b: UntypedBody) -> Result<HttpResponseOk<HoldOut>, HttpError> {
     let q = q.into_inner();
@@ -213,6 +220,7 @@ pub fn life_api() -> ApiDescription<LifeCtx> {
     let mut api = ApiDescription::new();
     api.register(vl_hold).unwrap();
     api.register(vl_upload).unwrap();
+    api.register(vl_typed).unwrap();
     api.register(vl_big).unwrap();
     api.register(vl_panic).unwrap();
     api.register(vl_health).unwrap();
